@@ -328,8 +328,19 @@ class C06(Check):
         single = changers_for(sig, 0 if case["kind"] == "function" else 1)
         seqs = [[c] for c in single]
         if case.get("pairs"):
-            seqs += [[a, b] for a in single for b in single
-                     if not (a[0].startswith(("add", "remove", "reorder")) and not a[0].startswith("reorder") and False)]
+            # the second changer's indexes refer to the signature the first one produced: pairs start with normalise
+            # (signature unchanged) or with a legal permutation (second changer enumerated over the permuted signature)
+            shift = 0 if case["kind"] == "function" else 1
+            for a in single:
+                if a[0] == "normalize":
+                    seqs += [[a, b] for b in single]
+                elif a[0].startswith("reorder") and callable(a[2]):
+                    digits = [int(ch) for ch in a[0] if ch.isdigit()]
+                    pl = plain(sig)
+                    perm = digits + list(range(len(digits), len(pl)))
+                    extras = [x for x in sig if x[0] in ("*", "**")]
+                    sig2 = [pl[i] for i in perm] + extras
+                    seqs += [[a, b] for b in changers_for(sig2, shift)]
         feats0 = ["kind:" + case["kind"], "host:" + case["host"], "ncalls:%d" % len(calls)]
         if case.get("wrapped"):
             feats0.append("header:wrapped")
@@ -352,10 +363,6 @@ class C06(Check):
                 feats0.append("call:no-args")
         for seq in seqs:
             labels = [c[0] for c in seq]
-            if len(seq) == 2:
-                # second changer is defined against the original signature; skip pairs that change arity first
-                if labels[0].startswith(("add", "remove")):
-                    continue
             if "only" in case and case["only"] != labels:
                 continue
             res["n"] += 1
